@@ -707,7 +707,12 @@ pub trait QueryBuilder:
             }
             _ => false,
         };
-        let need_parentheses = length > 1 && both_binary;
+        // a member that binds weaker than the chain's AND / OR (an OR, an AND, a NOT ..) keeps its parentheses
+        let binds_tighter = self.inner_expr_well_known_greater_precedence(
+            simple_expr,
+            &Oper::BinOper(BinOper::And),
+        );
+        let need_parentheses = length > 1 && (both_binary || !binds_tighter);
         if need_parentheses {
             write!(sql, "(").unwrap();
         }
